@@ -350,12 +350,6 @@ Proof.
 Qed.
 
 (* ---------- set_username ---------- *)
-Lemma nskipn_cons_of_nnth l i c : nnth l i = Some c -> nskipn i l = c :: nskipn (i + 1) l.
-Proof.
-  intros H. replace (i + 1) with (1 + i) by lia. rewrite <- nskipn_nskipn.
-  rewrite <- (N.add_0_r i) in H. rewrite <- nnth_nskipn in H.
-  destruct (nskipn i l) as [|y r]; [discriminate|]. cbn in H. inversion H; subst. reflexivity.
-Qed.
 
 Lemma cs_skip_a u a b x ue' : a <= nlen (ser u) ->
   nskipn a (ser (cred_splice u a b x ue')) = x ++ nskipn b (ser u).
